@@ -84,7 +84,7 @@ func verifC14Run(op int) {
 	verifC14.on = false
 	guardOff()
 	assert("lock-released", notHeld(&d.mu))
-	assert("single-critical-section", ghostCount("db.lock") <= 1)
+	assert("single-critical-section", lockCount(&d.mu) <= 1) // of the database lock (the audit writer has its own)
 	reach("end")
 }
 
